@@ -132,6 +132,8 @@ func getAllowedFees(params devgastypes.ModuleParams, totalFees sdk.Coins) sdk.Co
 			for _, allowed := range params.AllowedDenoms {
 				if fee.Denom == allowed {
 					allowedFees = allowedFees.Add(fee)
+					// count each fee coin once, even if the denom is listed twice in AllowedDenoms
+					break
 				}
 			}
 		}
